@@ -1,14 +1,23 @@
 """C02 — events bubble outward; handled/ignored events change nothing."""
-import hsm_corr
+import hsm_corr, factory_corr
 
 
 def explore(run, lean):
     n = 1500 if run.tier == "quick" else 20000
     hsm_corr.explore(run, "C02", n, hosts=("plain", "instr", "queued"))
+    # the same question for charts assembled from template state functions (which ask the chart for their parent), including
+    # template functions shared with another chart object that nests them differently
+    run.factory_key = "C02"
+    factory_corr.explore(run, 60 if run.tier == "quick" else 1500)
     run.extra["rule"] = ("random charts (1-14 states, 40% deep chains), scripts of start_at + 1-6 dispatch/is_in/child_state ops; "
                          "non-trivial = contains at least one step that the spec answers with handled/ignored; "
                          "distinct by canonical JSON of (chart, ops, host)")
+    ROUND6_RULE = '; template charts (state_method_template + register_parent), incl. template functions shared with another chart object that nests them differently; handlers in the register_parent style that ask `chart.parent_callback()` without argument'
+    run.extra["rule"] += ROUND6_RULE
 
 
 def replay(case):
+    cc = case.get("case", case)
+    if "regs" in cc:
+        return factory_corr.replay(case)
     return hsm_corr.replay(case)
